@@ -85,6 +85,10 @@ pub struct Plan {
     /// the root .tiny file is a pipe (read once, metadata reports size 0); only drawn when nothing damages the root
     #[serde(default)]
     pub root_is_pipe: bool,
+    /// files that are overwritten (damage, heal) keep their modification time (cp -p, rsync -t, two writes within one
+    /// tick of the file-system clock): a cache validated by mtime does not see the change (missed seeded change C05-15)
+    #[serde(default)]
+    pub keep_mtime: bool,
 }
 
 // ------------------------------------------------------------------------------------------------
@@ -330,7 +334,7 @@ impl Engine for C05 {
                 }
             }
         }
-        let mut p = Plan { versions: names, states, edges, malform: None, stray: w.chance(25), create_order: if s.chance(15) { 0 } else { s.next() | 1 }, pre: None, ops: vec![], links: 0, dir_style: 0, root_is_pipe: false };
+        let mut p = Plan { versions: names, states, edges, malform: None, stray: w.chance(25), create_order: if s.chance(15) { 0 } else { s.next() | 1 }, pre: None, ops: vec![], links: 0, dir_style: 0, root_is_pipe: false, keep_mtime: false };
         {
             let mut l = rng.split("links");
             if l.chance(15) {
@@ -343,6 +347,7 @@ impl Engine for C05 {
                 p.dir_style = 1 + e.below(7) as u8;
             }
             p.root_is_pipe = e.chance(8);
+            p.keep_mtime = e.chance(40);
         }
         // malformed directories in ~25 % of the runs
         if w.chance(25) {
@@ -509,6 +514,11 @@ impl Engine for C05 {
         if p.root_is_pipe {
             let mut q = p.clone();
             q.root_is_pipe = false;
+            c.push(q);
+        }
+        if p.keep_mtime {
+            let mut q = p.clone();
+            q.keep_mtime = false;
             c.push(q);
         }
         // drop the last version (if nothing else refers to it)
@@ -829,7 +839,14 @@ fn run_once(p: &Plan, create_order: u64, st: &mut RunStats, answers: &mut Vec<St
                 if let Some(b) = disk.get(&name).cloned() {
                     match mutate(&b, m, p) {
                         Some(nb) => {
-                            dir.overwrite(&name, &nb);
+                            if p.keep_mtime {
+                                dir.overwrite_keep_mtime(&name, &nb);
+                                if count {
+                                    st.probe("overwrite_keeps_mtime");
+                                }
+                            } else {
+                                dir.overwrite(&name, &nb);
+                            }
                             disk.insert(name, nb);
                         }
                         None => {
@@ -852,7 +869,11 @@ fn run_once(p: &Plan, create_order: u64, st: &mut RunStats, answers: &mut Vec<St
                 for (n, b) in &healthy {
                     if disk.get(n) != Some(b) {
                         if disk.contains_key(n) {
-                            dir.overwrite(n, b);
+                            if p.keep_mtime {
+                                dir.overwrite_keep_mtime(n, b);
+                            } else {
+                                dir.overwrite(n, b);
+                            }
                         } else {
                             dir.create(n, b);
                         }
